@@ -79,8 +79,33 @@ func runConc(seed int64, nclients, nops int, size uint64, out string, shape stri
 		{Id: 9, Proc: "write", H: "@1", Off: 0, Cnt: 6000, Stable: 2, Data: DataSpec{Pat: true, Len: 6000, Seed: 1}},
 		{Id: 10, Proc: "write", H: "@3", Off: 0, Cnt: 100, Stable: 2, Data: DataSpec{Pat: true, Len: 100, Seed: 2}},
 	}
+	if shape == "coldcache" {
+		// more objects than the inode cache holds (100), in one directory; the cache is emptied by a restart and
+		// inode blocks are read slowly, so that a call waiting for its inode sees many evictions meanwhile
+		setup = append(setup, Op{Id: 11, Proc: "mkdir", H: "root", Name: "big"})
+		for i := 0; i < 130; i++ {
+			setup = append(setup, Op{Id: 20 + i, Proc: "create", H: "@11", Name: fmt.Sprintf("c%03d", i)})
+		}
+		for i := 0; i < 130; i += 7 {
+			setup = append(setup, Op{Id: 200 + i, Proc: "write", H: fmt.Sprintf("@%d", 20+i), Off: 0, Cnt: uint64(10 + i), Stable: 2, Data: DataSpec{Pat: true, Len: uint64(10 + i), Seed: uint64(i)}})
+		}
+		setup = append(setup, Op{Id: 400, Proc: "restart"})
+	}
 	for _, o := range setup {
 		r.Step(o)
+	}
+	if shape == "coldcache" {
+		var rd int64
+		r.d.SlowRead = func(a uint64) {
+			// every other inode read of a GETATTR stalls for a long time while listings and lookups run at full
+			// speed: the stalled call sees more than a cache-full of other inodes come and go before it continues
+			if a >= 515 && a < 1539 {
+				if p, ok := curProc.Load(goid()); ok && p.(string) == "getattr" {
+					_ = rd
+					time.Sleep(25 * time.Millisecond)
+				}
+			}
+		}
 	}
 	fmt.Fprintf(w, "M conc-begin %d\n", nclients)
 	w.Flush()
@@ -128,6 +153,22 @@ func runConc(seed int64, nclients, nops int, size uint64, out string, shape stri
 		n := names[rg.Intn(len(names))]
 		fl := files[rg.Intn(len(files))]
 		switch shape {
+		case "coldcache":
+			// even clients list the directory (130 children: every listing turns the whole cache over), odd clients
+			// ask for the attributes of the files a listing has just pushed out (their inode reads stall)
+			if id/1000%2 == 0 {
+				if id%1000%8 != 0 {
+					// the entries a listing leaves in the cache (the last hundred) are looked up again: a slot that was
+					// recycled under a stalled reader and then overwritten by it is found here
+					return Op{Id: id, Proc: "lookup", H: "@11", Name: fmt.Sprintf("c%03d", 129-rg.Intn(90))}
+				}
+				return Op{Id: id, Proc: "readdirplus", H: "@11", Cookie: 0, Dircount: 1 << 20, Maxcount: 1 << 20}
+			}
+			if rg.Intn(5) == 0 {
+				return Op{Id: id, Proc: "read", H: fmt.Sprintf("@%d", 20+rg.Intn(130)/7*7), Off: 0, Cnt: 4000}
+			}
+			// (files outside the big directory: a listing would wait for a stalled child's lock)
+			return Op{Id: id, Proc: "getattr", H: files[rg.Intn(len(files))]}
 		case "relock": // removal / lookup of a child with a smaller number than its directory vs. re-binding of the name
 			i := id % 1000
 			switch id / 1000 % 3 {
@@ -219,8 +260,13 @@ func runConc(seed int64, nclients, nops int, size uint64, out string, shape stri
 		crng := rand.New(rand.NewSource(rng.Int63()))
 		go func(c int) {
 			defer wg.Done()
-			for i := 0; i < nops; i++ {
+			n := nops
+			if shape == "coldcache" && c%2 == 0 {
+				n = nops * 40 // the listing clients are fast; they keep going while the others stall
+			}
+			for i := 0; i < n; i++ {
 				o := genOp(crng, 100+c*1000+i)
+
 				mu.Lock()
 				h := r.resolve(o.H)
 				var h2 []byte
